@@ -25,6 +25,7 @@ def literal(node, src, modconsts):
 class ExprTr:
     def __init__(self, fields, props):
         self.fields, self.props = fields, props                  # name -> type
+        self.locals = {}                                          # local variable (single assignment, straight-line) -> type
     def toq(self, term, t): return term if t == "Q" else "(inject_Z %s)" % term
     def expr(self, e):
         if isinstance(e, ast.Constant) and isinstance(e.value, int) and not isinstance(e.value, bool):
@@ -33,6 +34,8 @@ class ExprTr:
             if e.attr in self.fields: return "(tt_%s self)" % e.attr, self.fields[e.attr]
             if e.attr in self.props: return "(%s self)" % e.attr, self.props[e.attr]
             raise Unsupported("self.%s is neither a translated field nor an earlier property" % e.attr)
+        if isinstance(e, ast.Name) and e.id in self.locals:
+            return "v_%s" % e.id, self.locals[e.id]
         if isinstance(e, ast.BinOp):
             l, tl = self.expr(e.left); r, tr = self.expr(e.right)
             if isinstance(e.op, ast.Pow):
@@ -90,11 +93,18 @@ def translate(repo):
     for n in cls.body:                                          # source order: a property may use earlier ones only
         if not (isinstance(n, ast.FunctionDef) and n.name in props_src): continue
         body = [s for s in n.body if not (isinstance(s, ast.Expr) and isinstance(s.value, ast.Constant) and isinstance(s.value.value, str))]
-        if len(body) != 1 or not isinstance(body[0], ast.Return) or body[0].value is None:
-            raise Unsupported("property %s is not a single return statement" % n.name)
+        # straight-line body: `name = expr` (each name assigned once, no side effects) ... `return expr` -> nested lets
+        if not body or not isinstance(body[-1], ast.Return) or body[-1].value is None:
+            raise Unsupported("property %s does not end in a return statement" % n.name)
         if [a.arg for a in n.args.args] != ["self"]: raise Unsupported("signature of " + n.name)
-        term, t = ExprTr(fields, props).expr(body[0].value)
-        out.append("Definition %s (self : transport_tuning) : %s := %s." % (n.name, t, term))
+        tr_ = ExprTr(fields, props); lets = ""
+        for s in body[:-1]:
+            if not (isinstance(s, ast.Assign) and len(s.targets) == 1 and isinstance(s.targets[0], ast.Name)) or s.targets[0].id in tr_.locals:
+                raise Unsupported("property %s: statement other than a single local assignment: %s" % (n.name, ast.unparse(s)[:60]))
+            term, t = tr_.expr(s.value)
+            lets += "let v_%s : %s := %s in " % (s.targets[0].id, t, term); tr_.locals[s.targets[0].id] = t
+        term, t = tr_.expr(body[-1].value)
+        out.append("Definition %s (self : transport_tuning) : %s := %s%s." % (n.name, t, lets, term))
         props[n.name] = t
     out.append("")
     # ---- error.py class table
